@@ -24,7 +24,7 @@ Hypothesis dv_mul : forall x y, dv (x * y)%K = (dv x * y + x * dv y)%K.
 Lemma dv_0 : dv k0 = k0.
 Proof.
   assert (H : dv k0 = (dv k0 + dv k0)%K) by (rewrite <- dv_add; f_equal; ring).
-  transitivity ((dv k0 + dv k0) - dv k0)%K; [rewrite <- H; ring|ring].
+  transitivity ((dv k0 + dv k0) - dv k0)%K; [ring|rewrite <- H; ring].
 Qed.
 
 Definition dT (t : triple) : triple := mk3 (dv (fp t)) (dv (fm t)) (dv (fz t)).
@@ -54,10 +54,11 @@ Definition lmat0 (l : lin S) : mat3 :=
   end.
 Definition is_shift (l : lin S) : bool := match l with LShift _ _ => true | _ => false end.
 Definition lact (m m0 : mat3) (x e : triple) : triple := tadd (mv m x) (mv m0 e).
+Arguments lact : simpl never.
 
-Lemma sv_mdiag a x : sv a x = mv (mdiag a) x.
+Lemma sv_mdiag (a x : triple) : sv a x = mv (mdiag a) x.
 Proof. apply (triple_ext S); unfold mv, dot, mdiag; simpl; ring. Qed.
-Lemma mv_mzero x : mv mzero x = t0.
+Lemma mv_mzero (x : triple) : mv mzero x = t0.
 Proof. apply (triple_ext S); unfold mv, dot, mzero; simpl; ring. Qed.
 
 Lemma get_lin l s n k : is_shift l = false -> shaped S s n ->
@@ -112,21 +113,448 @@ Proof.
   - simpl in B1. lia.
   - (* broadcast branch: one state, so n = 0 *)
     assert (n = 0)%nat by (simpl in B1; lia). subst n.
-    unfold Views.get at 1. simpl. unfold getZ. rewrite map_length.
-    rewrite (nthZ_map (fun y => tadd y x) t0 (tadd t0 x)) by reflexivity.
-    unfold Views.get. rewrite Eb. unfold getZ. rewrite A1. simpl.
     destruct (st a) as [|y0 [|? ?]] eqn:Ea; simpl in A1; try lia.
-    unfold nthZ; simpl.
-    destruct ((0 <=? k + 0) && (k + 0 <? 1)) eqn:E; simpl; auto.
-    destruct (Z.to_nat (k + 0)) as [|m]; simpl; auto. destruct m; reflexivity.
-  - unfold Views.get at 1. simpl.
-    rewrite <- Eb.
+    unfold Views.get. cbn [st]. rewrite Ea, Eb. cbn [map].
+    rewrite !getZ_single. destruct (k =? 0); auto.
+    apply (triple_ext S); simpl; ring.
+  - unfold Views.get at 1. cbn [st].
     pose proof (getZ_tab_pointwise S (mkSM (st a) (st b)) n (fun u w => tadd u w) k) as P.
-    simpl in P. rewrite P; auto.
-    + split; simpl; auto.
+    cbn [st equ] in P. rewrite Eb in P. rewrite P.
+    + unfold Views.get, Views.gete. cbn [st equ]. rewrite Eb. reflexivity.
+    + split; cbn [st equ]; auto.
     + apply (triple_ext S); simpl; ring.
 Qed.
 Lemma gete_add a b k : gete (sm_add a b) k = gete a k.
 Proof. unfold sm_add. destruct (st b) as [|x [|y t]]; reflexivity. Qed.
+
+
+(* ================= what a lookup in the new order1 dictionary returns ================= *)
+Lemma nat_eqb_spec x y : reflect (x = y) (Nat.eqb x y).
+Proof. apply Nat.eqb_spec. Qed.
+
+Definition entries (o : dop S) (v : var) : list (param * S) :=
+  flat_map (fun vp => if Nat.eqb v (fst vp) then snd vp else []) (d_order1 S o).
+
+(* the first-order terms contributed by operator o for variable v *)
+Definition terms (o : dop S) (s : sm) (v : var) : list sm :=
+  flat_map (fun pc => match derive1 S o s (fst pc) with
+                      | Some x => [sm_scale (snd pc) x] | None => [] end) (entries o v).
+
+Lemma In_dedup {A} (eqb : A -> A -> bool) (Hs : forall x y, reflect (x = y) (eqb x y)) x l :
+  In x (dedup eqb l) <-> In x l.
+Proof.
+  induction l as [|y l IH]; simpl; [tauto|].
+  destruct (existsb (eqb y) l) eqn:E.
+  - rewrite IH. split; auto. intros [->|H]; auto.
+    apply existsb_exists in E. destruct E as [z [Hz Hyz]].
+    destruct (Hs x z); [subst; auto|discriminate].
+  - simpl. now rewrite IH.
+Qed.
+
+Lemma alookup_filter_some {B} (f : nat -> option B) l p :
+  alookup Nat.eqb p (filter_some (map (fun q => (q, f q)) l)) = if existsb (Nat.eqb p) l then f p else None.
+Proof.
+  induction l as [|q l IH]; simpl; auto.
+  unfold filter_some in *. simpl.
+  destruct (f q) as [b|] eqn:Fq; simpl.
+  - destruct (Nat.eqb_spec p q) as [->|Hne]; simpl; auto.
+  - destruct (Nat.eqb_spec p q) as [->|Hne]; simpl; auto.
+    rewrite IH. now destruct (existsb (Nat.eqb q) l).
+Qed.
+
+Lemma existsb_In p l : existsb (Nat.eqb p) l = true <-> In p l.
+Proof.
+  rewrite existsb_exists. split.
+  - intros [x [Hx E]]. apply Nat.eqb_eq in E. now subst.
+  - intros H. exists p. split; auto. apply Nat.eqb_refl.
+Qed.
+
+Lemma entries_params o v p c : In (p, c) (entries o v) -> In p (parameters_order1 S o).
+Proof.
+  unfold entries, parameters_order1. intros H.
+  apply (In_dedup Nat.eqb nat_eqb_spec).
+  apply in_flat_map in H. destruct H as [[v' ps] [Hin Hp]]. simpl in Hp.
+  destruct (Nat.eqb v v'); [|contradiction].
+  apply in_flat_map. exists (v', ps). split; auto. simpl.
+  apply in_map_iff. exists (p, c). auto.
+Qed.
+
+Lemma pick_inner (partials : list (nat * sm)) (f : nat -> option sm) v v' ps :
+  (forall p c, In (p, c) ps -> v = v' -> alookup Nat.eqb p partials = f p) ->
+  pick S Nat.eqb v (flat_map (fun pc : nat * S =>
+       match alookup Nat.eqb (fst pc) partials with
+       | Some x => [(v', sm_scale (snd pc) x)] | None => [] end) ps)
+  = flat_map (fun pc : nat * S => match f (fst pc) with Some x => [sm_scale (snd pc) x] | None => [] end)
+             (if Nat.eqb v v' then ps else []).
+Proof.
+  intros H. unfold pick.
+  induction ps as [|[p c] ps IH]; cbn [flat_map].
+  - now destruct (Nat.eqb v v').
+  - rewrite flat_map_app. rewrite IH by (intros p0 c0 Hin Hv; apply (H p0 c0); [now right|exact Hv]).
+    destruct (Nat.eqb_spec v v') as [->|Hne]; cbn [flat_map].
+    + cbn [fst snd]. rewrite (H p c) by (auto; now left).
+      destruct (f p); cbn [flat_map fst snd app]; [now rewrite Nat.eqb_refl|reflexivity].
+    + cbn [fst snd]. destruct (alookup Nat.eqb p partials); cbn [flat_map fst snd app]; auto.
+      destruct (Nat.eqb_spec v v'); [congruence|reflexivity].
+Qed.
+
+Lemma pick_flat_terms_gen (partials : list (nat * sm)) (f : nat -> option sm) vs v :
+  (forall v' ps p c, In (v', ps) vs -> v = v' -> In (p, c) ps -> alookup Nat.eqb p partials = f p) ->
+  pick S Nat.eqb v (flat_terms S Nat.eqb vs partials) =
+  flat_map (fun pc : nat * S => match f (fst pc) with Some x => [sm_scale (snd pc) x] | None => [] end)
+           (flat_map (fun vp : nat * list (nat * S) => if Nat.eqb v (fst vp) then snd vp else []) vs).
+Proof.
+  intros H. unfold flat_terms.
+  induction vs as [|[v' ps] vs IH]; cbn [flat_map]; auto.
+  unfold pick in *. rewrite !flat_map_app.
+  rewrite IH by (intros v0 ps0 p0 c0 Hin Hv Hp; apply (H v0 ps0 p0 c0); [now right|exact Hv|exact Hp]).
+  f_equal. cbn [fst snd].
+  apply (pick_inner partials f v v' ps). intros p c Hin Hv. eapply (H v' ps p c); auto. now left.
+Qed.
+
+Lemma pick_flat_terms o s v :
+  pick S Nat.eqb v (flat_terms S Nat.eqb (d_order1 S o)
+     (filter_some (map (fun p => (p, derive1 S o s p)) (parameters_order1 S o)))) = terms o s v.
+Proof.
+  unfold terms, entries.
+  apply (pick_flat_terms_gen _ (derive1 S o s)).
+  intros v' ps p c Hin Hv Hp. subst v'.
+  rewrite alookup_filter_some.
+  assert (E : existsb (Nat.eqb p) (parameters_order1 S o) = true).
+  { apply existsb_In. apply (entries_params o v p c). unfold entries.
+    apply in_flat_map. exists (v, ps). split; auto. simpl. now rewrite Nat.eqb_refl. }
+  now rewrite E.
+Qed.
+
+(* keys of a dictionary built by acc1 stay unique *)
+Lemma keys_aupsert_present {V} k (v : V) f d :
+  amem Nat.eqb k d = true -> map fst (aupsert Nat.eqb k v f d) = map fst d.
+Proof.
+  unfold amem. induction d as [|[k' v'] d IH]; simpl; [discriminate|].
+  destruct (Nat.eqb_spec k k') as [->|Hne]; simpl; auto.
+  intros H. now rewrite IH.
+Qed.
+
+Lemma alookup_None_notin {V} k (d : list (nat * V)) : alookup Nat.eqb k d = None -> ~ In k (map fst d).
+Proof.
+  induction d as [|[k' v'] d IH]; simpl; auto.
+  destruct (Nat.eqb_spec k k') as [->|Hne]; [discriminate|].
+  intros H [E|Hin]; [congruence|now apply IH].
+Qed.
+
+Lemma acc1_nodup k v d ok : NoDup (map fst d) -> NoDup (map fst (fst (acc1 S Nat.eqb k v (d, ok)))).
+Proof.
+  intros H. unfold acc1. destruct (alookup Nat.eqb k d) eqn:E; simpl.
+  - rewrite keys_aupsert_present; auto. unfold amem. now rewrite E.
+  - rewrite map_app. simpl. apply alookup_None_notin in E.
+    clear -H E. induction (map fst d) as [|x l IH]; simpl.
+    + constructor; [intros []|constructor].
+    + inversion H; subst. constructor.
+      * intros Hin. apply in_app_or in Hin. destruct Hin as [Hin|[->|[]]]; [auto|]. apply E. now left.
+      * apply IH; auto. intros Hin. apply E. now right.
+Qed.
+
+Lemma fold_acc1_nodup l d ok : NoDup (map fst d) ->
+  NoDup (map fst (fst (fold_left (fun a kv => acc1 S Nat.eqb (fst kv) (snd kv) a) l (d, ok)))).
+Proof.
+  revert d ok. induction l as [|[k v] l IH]; intros d ok H; auto.
+  cbn [fold_left fst snd].
+  pose proof (acc1_nodup k v d ok H) as H'.
+  destruct (acc1 S Nat.eqb k v (d, ok)) as [d' ok']. now apply IH.
+Qed.
+
+Lemma pick_unique k (d : list (nat * sm)) : NoDup (map fst d) ->
+  pick S Nat.eqb k d = match alookup Nat.eqb k d with Some x => [x] | None => [] end.
+Proof.
+  unfold pick. induction d as [|[k' v] d IH]; intros H; simpl; auto.
+  inversion H as [|? ? Hnin Hnd]; subst.
+  destruct (Nat.eqb_spec k k') as [->|Hne]; simpl.
+  - rewrite IH by auto.
+    destruct (alookup Nat.eqb k' d) eqn:E; auto.
+    exfalso. apply Hnin. clear -E. induction d as [|[k2 v2] d IH]; simpl in *; [discriminate|].
+    destruct (Nat.eqb_spec k' k2); [now left|right; auto].
+  - now apply IH.
+Qed.
+
+Definition omap {A B} (f : A -> B) (o : option A) : option B :=
+  match o with Some x => Some (f x) | None => None end.
+
+Lemma alookup_map_values {V W} (f : V -> W) k (d : list (nat * V)) :
+  alookup Nat.eqb k (map (fun kv => (fst kv, f (snd kv))) d) = omap f (alookup Nat.eqb k d).
+Proof. induction d as [|[k' v] d IH]; simpl; auto. destruct (Nat.eqb k k'); auto. Qed.
+
+Theorem lookup_order1 o s old v :
+  alookup Nat.eqb v (fst (apply_order1 o s old)) =
+  oadd S (omap (derive0 S o) (alookup Nat.eqb v old)) (osum S (terms o s v) None).
+Proof.
+  unfold apply_order1, accumulate. cbn [fold_left fst snd].
+  rewrite (alookup_fold_acc1 S Nat.eqb nat_eqb_spec). cbn [fst].
+  rewrite alookup_map_values.
+  rewrite combine_partials_flat.
+  rewrite pick_unique by (apply fold_acc1_nodup; constructor).
+  rewrite (alookup_fold_acc1 S Nat.eqb nat_eqb_spec). cbn [fst alookup].
+  rewrite pick_flat_terms.
+  destruct (osum S (terms o s v) None); destruct (omap (derive0 S o) (alookup Nat.eqb v old)); reflexivity.
+Qed.
+
+(* ================= semantic values ================= *)
+Definition pshaped (n : nat) (s : sm) : Prop := shaped S s n /\ forall k, gete s k = t0.
+Definition oget (o : option sm) (k : Z) : triple := match o with Some s => get s k | None => t0 end.
+Definition opshaped (n : nat) (o : option sm) : Prop := match o with Some s => pshaped n s | None => True end.
+
+Lemma tadd_t0_l (x : triple) : tadd t0 x = x.
+Proof. apply (triple_ext S); simpl; ring. Qed.
+
+Lemma oadd_sem a b n k : opshaped n a -> opshaped n b ->
+  oget (oadd S a b) k = tadd (oget a k) (oget b k) /\ opshaped n (oadd S a b).
+Proof.
+  destruct a as [x|], b as [y|]; simpl; intros Ha Hb.
+  - destruct Ha as [Ha Ea], Hb as [Hb Eb]. split.
+    + apply (get_add x y n k Ha Hb).
+    + split; [now apply add_shaped|]. intros j. rewrite gete_add. apply Ea.
+  - split; auto. now rewrite (tadd_t0_r S L).
+  - split; auto. now rewrite tadd_t0_l.
+  - split; auto. now rewrite tadd_t0_l.
+Qed.
+
+Lemma osum_sem l init n k : opshaped n init -> List.Forall (pshaped n) l ->
+  oget (osum S l init) k = fold_left (fun acc x => tadd acc (get x k)) l (oget init k)
+  /\ opshaped n (osum S l init).
+Proof.
+  revert init. induction l as [|x l IH]; intros init Hi Hl; simpl; auto.
+  inversion Hl as [|? ? Hx Hl']; subst.
+  destruct (oadd_sem init (Some x) n k Hi Hx) as [E1 E2].
+  destruct (IH (oadd S init (Some x)) E2 Hl') as [E3 E4].
+  split; auto. unfold osum in *. simpl. rewrite E3, E1. reflexivity.
+Qed.
+
+(* effective derivative matrices of operator o with respect to variable v *)
+Definition eff_step (o : dop S) (acc : mat3 * mat3) (pc : param * S) : mat3 * mat3 :=
+  match alookup Nat.eqb (fst pc) (d_darrs S o) with
+  | Some l => (madd (fst acc) (mscale (snd pc) (lmat l)), madd (snd acc) (mscale (snd pc) (lmat0 l)))
+  | None => acc
+  end.
+Definition eff (o : dop S) (v : var) : mat3 * mat3 :=
+  fold_left (eff_step o) (entries o v) (mzero, mzero).
+
+Definition darrs_ok (o : dop S) : Prop :=
+  forall p l, alookup Nat.eqb p (d_darrs S o) = Some l -> is_shift l = false.
+
+Lemma lact_madd M M0 c N N0 (x e : triple) :
+  tadd (lact M M0 x e) (tscale c (lact N N0 x e)) =
+  lact (madd M (mscale c N)) (madd M0 (mscale c N0)) x e.
+Proof.
+  unfold lact, mv, dot, madd, mscale, tadd, tscale; simpl.
+  apply (triple_ext S); simpl; ring.
+Qed.
+
+Lemma terms_sem o s v n k : darrs_ok o -> shaped S s n ->
+  List.Forall (pshaped n) (terms o s v) /\
+  forall init, fold_left (fun acc x => tadd acc (get x k)) (terms o s v) init =
+    tadd init (lact (fst (eff o v)) (snd (eff o v)) (get s k) (gete s k)).
+Proof.
+  intros Hd Hs. unfold terms, eff.
+  assert (G : forall es M M0,
+     List.Forall (pshaped n) (flat_map (fun pc => match derive1 S o s (fst pc) with
+                      | Some x => [sm_scale (snd pc) x] | None => [] end) es) /\
+     forall init, fold_left (fun acc x => tadd acc (get x k))
+        (flat_map (fun pc => match derive1 S o s (fst pc) with
+                      | Some x => [sm_scale (snd pc) x] | None => [] end) es)
+        (tadd init (lact M M0 (get s k) (gete s k))) =
+      tadd init (lact (fst (fold_left (eff_step o) es (M, M0))) (snd (fold_left (eff_step o) es (M, M0)))
+                      (get s k) (gete s k))).
+  { induction es as [|[p c] es IH]; intros M M0; cbn [flat_map fold_left].
+    - split; [constructor|reflexivity].
+    - unfold derive1, eff_step at 2 4. cbn [fst snd].
+      destruct (alookup Nat.eqb p (d_darrs S o)) as [l|] eqn:El.
+      + pose proof (Hd p l El) as Hl.
+        destruct (IH (madd M (mscale c (lmat l))) (madd M0 (mscale c (lmat0 l)))) as [F1 F2].
+        split.
+        * cbn [app]. constructor; auto. split.
+          -- apply scale_shaped, zero_equ_shaped, lin_shaped; auto.
+          -- intros j. rewrite gete_scale. apply gete_zero_equ.
+        * intros init. cbn [app fold_left].
+          rewrite get_scale, get_zero_equ, (get_lin l s n k Hl Hs).
+          rewrite <- F2. f_equal.
+          rewrite <- lact_madd. apply (triple_ext S); simpl; ring.
+      + apply IH. }
+  destruct (G (entries o v) mzero mzero) as [G1 G2]. split; auto.
+  intros init. rewrite <- G2. f_equal.
+  unfold lact. rewrite !mv_mzero. apply (triple_ext S); simpl; ring.
+Qed.
+
+(* ================= exactness of the carried first-order partial ================= *)
+Lemma dT_lact M M0 (x e : triple) :
+  dT (lact M M0 x e) = tadd (lact (dM M) (dM M0) x e) (lact M M0 (dT x) (dT e)).
+Proof.
+  unfold lact. rewrite dT_tadd, !dT_mv.
+  apply (triple_ext S); simpl; ring.
+Qed.
+
+(* chain rule hypothesis: dv of the operator arrays is the declared combination of derivative arrays *)
+Definition coef_ok (o : dop S) (v : var) : Prop :=
+  forall x e : triple,
+    lact (dM (lmat (d_lin S o))) (dM (lmat0 (d_lin S o))) x e =
+    lact (fst (eff o v)) (snd (eff o v)) x e.
+
+Definition instr_ok (v : var) (i : dinstr S) : Prop :=
+  match i with
+  | DOp o => darrs_ok o /\
+             (if is_shift (d_lin S o) then d_order1 S o = [] else coef_ok o v)
+  | DPlain OWait => True
+  | DPlain (OPD p false) => dv p = k0
+  | DPlain _ => False      (* SPOILER / RESET / PD(reset): partials are not propagated by the code *)
+  end.
+
+Definition inv (v : var) (n : nat) (ds : dstate S) : Prop :=
+  shaped S (d_main ds) n /\
+  (forall k, dT (gete (d_main ds) k) = t0) /\
+  opshaped n (alookup Nat.eqb v (d_p1 ds)) /\
+  (forall k, oget (alookup Nat.eqb v (d_p1 ds)) k = dT (get (d_main ds) k)).
+
+Lemma lact_t0 M M0 : lact M M0 t0 t0 = @t0 S.
+Proof. unfold lact. rewrite !(mv_t0 S L). apply (tadd_t0 S L). Qed.
+
+Lemma step_nonshift v n o ds : is_shift (d_lin S o) = false -> darrs_ok o -> coef_ok o v ->
+  inv v n ds -> inv v n (dapply o ds).
+Proof.
+  intros Hl Hd Hc (Hs & He & Hp & Hv).
+  assert (Hnew : alookup Nat.eqb v (d_p1 (dapply o ds)) =
+     oadd S (omap (derive0 S o) (alookup Nat.eqb v (d_p1 ds))) (osum S (terms o (d_main ds) v) None)).
+  { unfold dapply. cbn [d_p1].
+    destruct (nonempty (d_p1 ds) || nonempty (d_order1 S o)) eqn:E.
+    - apply lookup_order1.
+    - apply orb_false_elim in E. destruct E as [E1 E2].
+      destruct (d_p1 ds); [|discriminate]. cbn [fst alookup omap].
+      unfold terms, entries. destruct (d_order1 S o); [|discriminate]. reflexivity. }
+  destruct (terms_sem o (d_main ds) v n 0 Hd Hs) as [Tsh _].
+  assert (Hprev : opshaped n (omap (derive0 S o) (alookup Nat.eqb v (d_p1 ds)))).
+  { destruct (alookup Nat.eqb v (d_p1 ds)) as [p|]; simpl; auto. destruct Hp as [Hp1 Hp2]. split.
+    - now apply lin_shaped.
+    - intros k. unfold derive0. rewrite gete_lin by auto. apply Hp2. }
+  split; [|split; [|split]].
+  - unfold dapply; cbn [d_main]. now apply lin_shaped.
+  - intros k. unfold dapply; cbn [d_main]. rewrite gete_lin by auto. apply He.
+  - rewrite Hnew.
+    destruct (osum_sem (terms o (d_main ds) v) None n 0 I Tsh) as [_ Osh].
+    apply (oadd_sem _ _ n 0 Hprev Osh).
+  - intros k. rewrite Hnew.
+    destruct (terms_sem o (d_main ds) v n k Hd Hs) as [_ Tsem].
+    destruct (osum_sem (terms o (d_main ds) v) None n k I Tsh) as [Osem Osh].
+    destruct (oadd_sem _ _ n k Hprev Osh) as [E _]. rewrite E, Osem, Tsem. cbn [oget].
+    unfold dapply; cbn [d_main]. rewrite (get_lin _ _ n k Hl Hs), dT_lact, He, Hc.
+    specialize (Hv k).
+    destruct (alookup Nat.eqb v (d_p1 ds)) as [p|]; cbn [omap oget] in *.
+    + destruct Hp as [Hp1 Hp2]. unfold derive0. rewrite (get_lin _ _ n k Hl Hp1), Hp2, Hv.
+      unfold lact. rewrite !(mv_t0 S L). apply (triple_ext S); simpl; ring.
+    + rewrite <- Hv. rewrite lact_t0. apply (triple_ext S); simpl; ring.
+Qed.
+
+Lemma get_resize_dT s p n n' : shaped S s n -> shaped S p n ->
+  (forall k, get p k = dT (get s k)) -> forall k, get (resize p n') k = dT (get (resize s n') k).
+Proof.
+  intros Hs Hp H k. rewrite (get_resize S p n n' k Hp), (get_resize S s n n' k Hs).
+  destruct (inwin n' k); [apply H|now rewrite dT_t0].
+Qed.
+
+Lemma step_shift v n o ds d nm : d_lin S o = LShift d nm -> d_order1 S o = [] ->
+  inv v n ds -> inv v (shift_n d nm n) (dapply o ds).
+Proof.
+  intros Hl Ho (Hs & He & Hp & Hv).
+  assert (Hnew : alookup Nat.eqb v (d_p1 (dapply o ds)) = omap (derive0 S o) (alookup Nat.eqb v (d_p1 ds))).
+  { unfold dapply. cbn [d_p1]. rewrite Ho.
+    destruct (nonempty (d_p1 ds) || nonempty []) eqn:E.
+    - rewrite lookup_order1. unfold terms, entries. rewrite Ho. cbn [flat_map osum fold_left].
+      now destruct (omap (derive0 S o) (alookup Nat.eqb v (d_p1 ds))).
+    - apply orb_false_elim in E. destruct E as [E1 _].
+      destruct (d_p1 ds); [reflexivity|discriminate]. }
+  unfold inv. rewrite Hnew. unfold dapply; cbn [d_main]. unfold derive0, apply_lin. rewrite Hl. cbn [lin_op apply].
+  split; [|split; [|split]].
+  - now apply shift_shaped.
+  - intros k. rewrite (gete_shift S d nm _ n k Hs), (gete_resize S _ n _ k Hs).
+    destruct (inwin (shift_n d nm n) k); [apply He|apply dT_t0].
+  - destruct (alookup Nat.eqb v (d_p1 ds)) as [p|]; cbn [omap opshaped]; auto.
+    destruct Hp as [Hp1 Hp2]. split; [now apply shift_shaped|].
+    intros k. rewrite (gete_shift S d nm _ n k Hp1), (gete_resize S _ n _ k Hp1).
+    destruct (inwin (shift_n d nm n) k); [apply Hp2|reflexivity].
+  - intros k. rewrite (get_shift S d nm _ n k Hs). cbv zeta.
+    destruct (alookup Nat.eqb v (d_p1 ds)) as [p|]; cbn [omap oget] in *.
+    + destruct Hp as [Hp1 Hp2]. rewrite (get_shift S d nm _ n k Hp1). cbv zeta.
+      pose proof (get_resize_dT _ p n (shift_n d nm n) Hs Hp1 Hv) as R.
+      destruct (inwin (shift_n d nm n) k); [|now rewrite dT_t0].
+      rewrite !R. reflexivity.
+    + assert (R : forall j, dT (get (resize (d_main ds) (shift_n d nm n)) j) = t0).
+      { intros j. rewrite (get_resize S _ n _ j Hs). destruct (inwin _ j); [now rewrite <- Hv|apply dT_t0]. }
+      destruct (inwin (shift_n d nm n) k); [|now rewrite dT_t0].
+      unfold dT in *. cbn [fp fm fz].
+      pose proof (R (k - d)) as R1. pose proof (R (k + d)) as R2. pose proof (R k) as R3.
+      unfold t0 in *. injection R1 as A1 _ _. injection R2 as _ A2 _. injection R3 as _ _ A3.
+      now rewrite A1, A2, A3.
+Qed.
+
+Definition instr_n (i : dinstr S) (n : nat) : nat :=
+  match i with
+  | DOp o => match d_lin S o with LShift d nm => shift_n d nm n | _ => n end
+  | DPlain o => op_n S o n
+  end.
+
+Theorem order1_step v n i ds : instr_ok v i -> inv v n ds -> inv v (instr_n i n) (dstep i ds).
+Proof.
+  intros Hi Hinv. destruct i as [o|o]; cbn [dstep instr_n].
+  - destruct Hi as [Hd Hc]. destruct (d_lin S o) as [a a0|m m0|d nm] eqn:El; cbn [is_shift] in Hc.
+    + apply step_nonshift; auto. now rewrite El.
+    + apply step_nonshift; auto. now rewrite El.
+    + now apply (step_shift v n o ds d nm).
+  - destruct Hinv as (Hs & He & Hp & Hv).
+    destruct o as [| | | | |p r|]; try contradiction; [destruct r; [contradiction|]|].
+    + (* PD without reset: only the equilibrium changes, by a constant *)
+      cbn [instr_ok] in Hi. unfold inv. cbn [d_main d_p1 op_n apply].
+      split; [now apply pd_shaped|split; [|split]]; auto.
+      intros k. rewrite (gete_pd S p false _ n k Hs). destruct (k =? 0); [|apply dT_t0].
+      unfold dT; cbn [fp fm fz]. now rewrite Hi, dv_0.
+    + exact (conj Hs (conj He (conj Hp Hv))).
+Qed.
+
+Fixpoint run_n (prog : list (dinstr S)) (n : nat) : nat :=
+  match prog with [] => n | i :: t => run_n t (instr_n i n) end.
+
+(* every program: the partial carried for v IS the derivation of the simulated state *)
+Theorem order1_run v prog n ds :
+  List.Forall (instr_ok v) prog -> inv v n ds -> inv v (run_n prog n) (drun prog ds).
+Proof.
+  revert n ds. induction prog as [|i prog IH]; intros n ds Hok Hinv; simpl; auto.
+  inversion Hok as [|? ? Hi Hrest]; subst.
+  unfold drun in *. simpl. apply IH; auto. now apply order1_step.
+Qed.
+
+(* simulate() starts from a constant state without partials *)
+Lemma inv_init v pd : dv pd = k0 -> inv v 0 (dinit (init pd)).
+Proof.
+  intros Hpd. unfold inv, dinit, init. cbn [d_main d_p1 alookup opshaped oget].
+  split; [split; reflexivity|split; [|split]]; auto.
+  - intros k. unfold Views.gete. cbn [equ]. rewrite getZ_single.
+    destruct (k =? 0); [|apply dT_t0]. unfold dT; cbn [fp fm fz]. now rewrite Hpd, dv_0.
+  - intros k. unfold Views.get. cbn [st]. rewrite getZ_single.
+    destruct (k =? 0); [|now rewrite dT_t0]. unfold dT; cbn [fp fm fz]. now rewrite Hpd, dv_0.
+Qed.
+
+(* Jacobian probe: the column of v is dv of the signal; a variable no operator carries yields zero *)
+Theorem jacobian_exact v prog pd :
+  dv pd = k0 -> List.Forall (instr_ok v) prog ->
+  jacobian (drun prog (dinit (init pd))) [v] = [dv (f0 S (d_main (drun prog (dinit (init pd)))))].
+Proof.
+  intros Hpd Hok.
+  destruct (order1_run v prog 0 _ Hok (inv_init v pd Hpd)) as (Hs & _ & Hp & Hv).
+  set (ds := drun prog (dinit (init pd))) in *. set (n := run_n prog 0) in *.
+  unfold jacobian. cbn [map]. f_equal.
+  specialize (Hv 0).
+  assert (C : forall s, shaped S s n -> f0 S s = fp (get s 0)).
+  { intros s [H1 _]. unfold f0, centre, Views.get. rewrite (getZ_odd t0 _ n 0 H1), H1, half_odd.
+    rewrite Z.add_0_l. now rewrite nthZ_nat. }
+  rewrite (C _ Hs).
+  destruct (alookup Nat.eqb v (d_p1 ds)) as [p|]; cbn [oget opshaped] in *.
+  - destruct Hp as [Hp1 _]. rewrite (C _ Hp1), Hv. reflexivity.
+  - unfold dT in Hv. unfold t0 in Hv. now injection Hv as <- _ _.
+Qed.
 
 End DiffExact.
